@@ -40,18 +40,26 @@ Proof. exact expected_prefix. Qed.
 Theorem C20_fails_iff : forall l i, fst (expected_from i l) = existsb ifails l.
 Proof. exact expected_fails_iff. Qed.
 
-(** re-evaluating a chain repeats the same behaviour: the chain is a value, evaluation is a function of it
-    and of the world the closures see (go2v rejects any assignment to the step list inside CheckFailed) *)
-Theorem C20_repeat : forall (W : Type) (log : SM W unit) ds (w : W),
-  CheckFailed (SM W) (@sret W) (@sbind W) (build W log ds) w = CheckFailed (SM W) (@sret W) (@sbind W) (build W log ds) w
-  /\ build W log ds = map (gen_step W log) ds.
-Proof. intros. split; [reflexivity|apply build_map]. Qed.
+(** re-evaluating a chain repeats the same behaviour: the chain is a value (go2v rejects any assignment to the step
+    list inside CheckFailed); evaluating the same instrumented chain n times in a row, each evaluation starting in the
+    world the previous one left, gives n times the same verdict and n times the same events, callback included *)
+Theorem C20_repeat : forall n l, 
+  let '(verdicts, w) := repeat_run n l [] in
+  verdicts = repeat (fst (expected_from 0 l)) n /\ rev w = napp n (snd (expected_from 0 l)).
+Proof. intros n l. rewrite repeat_run_spec, app_nil_r, rev_involutive. split; reflexivity. Qed.
+(** ... and for any world type the evaluator is the reference function of the step descriptions alone *)
+Theorem C20_chain_is_value : forall (W : Type) (log : SM W unit) ds, build W log ds = map (gen_step W log) ds.
+Proof. intros. apply build_map. Qed.
 
 (** non-vacuity: a three-step chain whose second step fails *)
 Example C20_example :
   trace_of [IValueNotEmpty (b "x"); ICondLogic true true; ILogic true]
   = (true, [(0, EValue); (1, ECond); (1, ELogic); (1, ECallback)]).
 Proof. vm_compute. reflexivity. Qed.
+Example C20_repeat_example :
+  let '(v, w) := repeat_run 2 [IValueNotEmpty (b "x"); ICondLogic true true; ILogic true] [] in
+  v = [true; true] /\ count_cb (rev w) = 2.
+Proof. vm_compute. split; reflexivity. Qed.
 
 Print Assumptions C20_sem.
 Print Assumptions C20_prefix.
@@ -61,3 +69,4 @@ Print Assumptions C20_once.
 Print Assumptions C20_no_later.
 Print Assumptions C20_fails_iff.
 Print Assumptions C20_repeat.
+Print Assumptions C20_chain_is_value.
